@@ -139,8 +139,10 @@ class Lazy:
     branch of a lazy function, live = actually evaluated, via = 'cell' | 'range'
     | 'name' | 'name-range'."""
 
-    def __init__(self, wb, preset=None):
+    def __init__(self, wb, preset=None, strict_ifs=False):
         self.wb = wb
+        self.strict_ifs = strict_ifs  # an error in ANY condition of IFS is the result (used for `own` only)
+        self.ifs_pos = 0              # > 0 while walking the k-th condition of an IFS
         self.preset = preset or {}
         self.memo = {}
         self.stack = []
@@ -163,13 +165,13 @@ class Lazy:
         if k in self.on:
             return TAINT
         self.on.add(k)
-        saved = self.cur, self.absorb, self.inguard
-        self.cur, self.absorb, self.inguard = k, 0, 0
+        saved = self.cur, self.absorb, self.inguard, self.ifs_pos
+        self.cur, self.absorb, self.inguard, self.ifs_pos = k, 0, 0, 0
         self.occ.setdefault(k, [])
         try:
             v = self.ev(self.wb.cells[k], True, False, None)
         finally:
-            self.cur, self.absorb, self.inguard = saved
+            self.cur, self.absorb, self.inguard, self.ifs_pos = saved
             self.on.discard(k)
         if isinstance(v, Blank):
             v = 0.0  # a formula that returns a blank reference shows 0
@@ -180,7 +182,7 @@ class Lazy:
         for k in self.wb.keys:
             if k in self.preset:
                 # still walk the formula to record occurrences
-                self.cur, self.absorb, self.inguard = k, 0, 0
+                self.cur, self.absorb, self.inguard, self.ifs_pos = k, 0, 0, 0
                 self.occ.setdefault(k, [])
                 self.on.add(k)
                 try:
@@ -199,6 +201,8 @@ class Lazy:
     # -- references
     def ref(self, e, live, guarded, gk, via='cell'):
         k = (e[1], e[2], e[3], e[4])
+        if via == 'cell' and self.ifs_pos:
+            via = 'ifs-cond1' if self.ifs_pos == 1 else 'ifs-late-cond'
         self.note(k, guarded, live, via, gk)
         return self.cell(k) if live else None
 
@@ -276,18 +280,24 @@ class Lazy:
         if op == 'IFS':
             res, done = None, False
             pairs = list(zip(e[1::2], e[2::2]))
-            for c, v in pairs:
-                # conditions are always evaluated (asserted domain: they are not circular)
-                cv = self.guard_ev(c, e[2::2], live, guarded, gk)
+            cond_errs = []
+            for pos_, (c, v) in enumerate(pairs):
+                # every condition is walked as a strict, live reference position: only value branches are
+                # avoidable, a condition never is (also a later one, also after a TRUE one)
+                saved_pos, self.ifs_pos = self.ifs_pos, pos_ + 1
+                try:
+                    cv = self.guard_ev(c, e[2::2], live, guarded, gk)
+                finally:
+                    self.ifs_pos = saved_pos
                 take = False
+                if live and is_err(cv):
+                    cond_errs.append(cv)
                 if live and not done:
                     t = self.truth(cv)
                     if t is UNK:
                         self.unk_guard = True
                         res, done = UNK, True
                     elif is_err(t):
-                        if isinstance(t, AnyErr) or t == CIRC:
-                            self.unk_guard = True  # outside the asserted domain
                         res, done = self.err1([t]), True
                     elif t:
                         take, done = True, True
@@ -296,6 +306,8 @@ class Lazy:
                     res = x
             if live and not done:
                 res = NA
+            if live and self.strict_ifs and cond_errs and res is not UNK:
+                res = self.err1(cond_errs)
             return res if live else None
         if op in ('IFERROR', 'IFNA'):
             self.absorb += 1
@@ -493,7 +505,46 @@ def analyse(cells, names=(), max_cycles=20000):
     guarded_src = {i for (i, j), c in edges.items() if c != STRICT}
     # cells on an active cycle whose own formula does not simply hand the circular error on
     # (it absorbs errors, or has another error operand)
-    impure = {k for k in on_active if p2.own.get(k) != CIRC}
+    # (own formula evaluated with "an error in any IFS condition is the result": a cycle through a condition is strict)
+    p3 = Lazy(wb, preset={k: CIRC for k in on_active}, strict_ifs=True).run()
+    hard = {k for k in on_active if p3.own.get(k) != CIRC}
+
+    def on_strict_cycle(k):
+        return any(ckind[n] == 'active' and all(
+            edges[(cycles[n][i], cycles[n][(i + 1) % len(cycles[n])])] == STRICT for i in range(len(cycles[n])))
+            for n in node_cycles[k])
+    # "soft": the cell's own formula yields an ordinary value only because an earlier IFS condition is TRUE and the
+    # circular reference sits in a later condition.  On a cycle that is strict all the way round this cannot matter
+    # (every cell of the cycle is marked); on a cycle that needs a selected branch it is finding F-C10-2 again.
+    soft = {k for k in on_active if k not in hard and p2.own.get(k) != CIRC and not on_strict_cycle(k)}
+    impure = hard | soft
+    # the same kind of cell on an all-strict cycle: asserted exactly, unless one of the circular cells its formula
+    # reads lies on a different set of cycles (of any kind: a vetoed harmless cycle is marked too) than the cell itself (then the repo may compute the cell from
+    # an already marked shorter cycle before its own mark arrives: tag 'late-cond-race', reported separately)
+    act = {k: frozenset(n for n in node_cycles[k] if ckind[n] == 'active') for k in on_active}
+    race = set()
+    rf = None
+    for k in on_active:
+        if k not in hard and p2.own.get(k) != CIRC and k not in soft:
+            ck = set()
+            for n in act[k]:
+                ck.update(cycles[n])
+            if any(node_cycles[m] != node_cycles[k] for m in ck):
+                race.add(k)
+                continue
+            # ... or a cell of those cycles lies inside a rectangle that is a node of another active cycle
+            if rf is None:
+                rf = refined({'occ': occ})
+            mem = {}
+            for lst in occ.values():
+                for o in lst:
+                    if o[6] is not None:
+                        mem.setdefault(o[6], set()).add(o[0])
+            for rid, ms in mem.items():
+                if ms & ck and any(('c', k) not in rf['cycles'][n]
+                                   for n in rf['node_cycles'].get(('r', rid), ())):
+                    race.add(k)
+                    break
     info = {}
     for k in wb.keys:
         kinds = set()
@@ -504,13 +555,14 @@ def analyse(cells, names=(), max_cycles=20000):
         own = {ckind[n] for n in node_cycles[k]}
         after_impure = bool(reach_dyn[k] & impure)
         if k in on_active:
-            strict_cycle = any(ckind[n] == 'active' and all(
-                edges[(cycles[n][i], cycles[n][(i + 1) % len(cycles[n])])] == STRICT for i in range(len(cycles[n])))
-                for n in node_cycles[k])
-            cls_, sub = 'circ', ('impure' if after_impure else 'strict' if strict_cycle else 'via-selected')
+            strict_cycle = on_strict_cycle(k)
+            if strict_cycle and not (reach_dyn[k] & hard):
+                after_impure = False
+            cls_, sub = 'circ', ('impure' if after_impure else 'late-cond-race' if reach_dyn[k] & race else
+                                 'strict' if strict_cycle else 'via-selected')
         elif v is UNK:
             cls_, sub = 'unk', 'unk'
-        elif after_impure:
+        elif after_impure or reach_dyn[k] & race:
             cls_, sub = 'unk', 'after-impure'
         elif is_err(v) and (v == CIRC or (isinstance(v, AnyErr) and '#CIRC!' in v.cands)):
             cls_, sub = 'err', 'downstream-active'
